@@ -8,6 +8,7 @@ pub mod delta;
 pub mod hist;
 pub mod history;
 pub mod jsondelta;
+pub mod ops;
 pub mod rtrsrv;
 pub mod sched;
 pub mod server;
@@ -26,6 +27,7 @@ pub fn all() -> Vec<&'static Check> {
         &worlds2::C08,
         &worlds2::C09,
         &worlds2::C10,
+        &ops::C37,
         &worlds2::C39,
         &worlds2::C41,
         &delta::C11,
@@ -41,6 +43,7 @@ pub fn all() -> Vec<&'static Check> {
         &cache::C26,
         &cache::C27,
         &cache::C28,
+        &ops::C32,
         &sched::C33,
         &sched::C34,
         &config::C35,
@@ -54,6 +57,9 @@ pub fn find(id: &str) -> Option<&'static Check> {
 
 /// Special sub-commands of the rv binary used by some checks (helpers that
 /// must run in their own process).
-pub fn special(_args: &[String]) -> Option<i32> {
+pub fn special(args: &[String]) -> Option<i32> {
+    if args.get(1).map(|s| s.as_str()) == Some("routinator") {
+        return Some(crate::rvbin::main(&args[1..]))
+    }
     None
 }
